@@ -52,6 +52,14 @@ CHECKS = {
         technique=WRAP_TECH,
         text="Virtual-clock bounds: TLC checks DeadlineBound, TimeoutBound, CancelBound and NoEarlyRefusal on the models with Tick allowed between any two gates; the contract rejects a caller blocked at or past its bound in a stable state (class bound) and a refusal without a reason (class early) in every recorded execution, with instants exact to the tick.",
         ref="5 C13", note=WRAP_NOTE),
+    "C14": dict(
+        technique="TLA+ contract of one intercepted operation (spec/Grpc.tla); TLC enumerates the full product of inputs (GrpcMC) and every case is executed on the real interceptors with recording doubles; recorded random operation sequences validated by TLC (GrpcTrace)",
+        text="All 192 combinations of operation (unary server / unary client / RecvMsg / SendMsg) x grant x inner error x classifier answer x default-or-custom classifiers x default-or-custom limit-exceeded classifier are executed against the real interceptors with recording limiter/listener doubles and fake handler, invoker and ServerStream; the observation (limiter consulted, wrapped call run, listener method on which token, returned value / status code) must equal the contract's. 3k-20k random operations are validated in the other direction.",
+        ref="5 C14", note="Interceptors are stateless, so sequences are independent operations; no network; the stream classifiers are taken as named (RecvMsg -> server stream classifier, SendMsg -> client stream classifier)."),
+    "C20": dict(
+        technique="implementation-shaped TLA+ model of the registries' poller life cycle (spec/Registry.tla) model-checked by TLC with the as-delivered and flag-only variants as negative configurations; recorded Start/Stop/Register/advance/sample sequences of both bundled registries on a virtual clock validated by TLC against spec/RegistryTrace.tla; emission checked through the Limiter contract (in-flight sample at the admission decision, limit gauge)",
+        text="TLC checks AtMostOnePoller, PollOnlyWhileStarted, StopTerminates (no deadlock with a poll in progress) and NoPollerAfterStop for sequential and two concurrent callers; the code as delivered (started never set) and the naive repair (flag only: deadlock) must fail. Real go-metrics and Datadog registries (statsd client writing to a buffer) are driven through seeded call sequences in a synctest bubble: polls per gauge per ticker instant, forwarding of distribution/timing/count samples to the backend metric of the right kind under the prefixed name, and a poller left after the last Stop are compared with the contract after every call.",
+        ref="5 C20", note="Sequential callers in the recorded sequences; virtual clock; per-sample emission of the limit algorithms is covered by the limit traces."),
     "C19": dict(
         technique=WRAP_TECH + "; free-running pool scenarios (fixed and generic pools, FIFO/LIFO/random) with 'everyone is served' runs",
         text="Never more than the limit held: the contract's atomic-gate check on every delegate attempt and every grant (black-box mode for the fixed pool). Everyone served: TLC's TerminalAllServed on the acyclic models (every maximal behaviour ends with all callers granted and completed) and, on the real pools, seeded runs with callers <= limit + backlog whose every refusal or unanswered caller is rejected (class starved).",
